@@ -714,6 +714,8 @@ func (r *s1run) bindArg(w locSet, callee *ssa.Function, param int, arg ssa.Value
 				mw[l] = true
 			} else if !strings.ContainsAny(l, ".[") {
 				mw[prefix+l] = true
+			} else if strings.HasSuffix(l, "[]") && !strings.Contains(l, ".") {
+				mw[prefix+l] = true
 			}
 		}
 		return mw
